@@ -9,7 +9,7 @@ From CXV Require Gen.PinsC12.
 From CXV Require Import Gen.TopLoop Parse.Balanced Parse.TopLoop.
 From CXV Require Gen.Facts.
 From CXV Require Import Gen.TokTy Parse.Declarator Parse.DeclSpec Parse.EnumList Parse.NsHeader.
-From CXV Require Import Parse.DeclThms Parse.Specs Parse.DeclStmt Parse.Bodies Parse.ClassDef Parse.ClassDefThms.
+From CXV Require Import Parse.DeclThms Parse.Specs Parse.DeclStmt Parse.Bodies Parse.ClassDef Parse.ClassDefThms Parse.ClassDefElems Parse.PQName Parse.Using Parse.EnumDecl Parse.EnumList Parse.FinishClass.
 Open Scope N_scope.
 
 (* fold_compositional: the result of a concatenation of two declaration
@@ -140,6 +140,34 @@ Theorem declaration_statements_are_unit_elements : forall dt pre post b items la
            (NDecls m (map (ditem_entry bt) items ++ [last_entry bt last le]))).
 Proof. exact decl_stmt_is_nelem. Qed.
 
+(* ... as are using-directives, using-declarations, alias-declarations and enum definitions ([NOne]) *)
+Theorem using_directives_are_unit_elements : forall n dt root nm q,
+  one_step_ns n dt (ktok T_using :: udir_toks root nm q ++ [ktok T_LIT_59]) (IUsing 0 (UDir root (nm :: q))).
+Proof. exact using_directive_is_statement. Qed.
+
+Theorem using_declarations_are_unit_elements : forall n dt (tn root : bool) nm q,
+  (q = [] -> root = true \/ tn = true) ->
+  one_step_ns n dt (ktok T_using :: pn2_toks (PNames tn [] root nm q) ++ [ktok T_LIT_59])
+              (IUsing 0 (UDecl (pn2_out (PNames false [] root nm q)))).
+Proof. exact using_declaration_is_statement. Qed.
+
+Theorem aliases_are_unit_elements : forall n dt a t,
+  DeclSpec.wf t -> kind_of t <> KFn ->
+  one_step_ns n dt (ktok T_using :: mkTk T_NAME a :: ktok T_LIT_61 :: decl_toks t None ++ [ktok T_LIT_59]) (IUsing 0 (UAlias a t)).
+Proof. exact using_alias_is_statement. Qed.
+
+Theorem enum_definitions_are_unit_elements : forall n dt key name p items tc,
+  enum_key key ->
+  (forall X, match p with Some p => base_ok p (ktok T_LIT_123 :: enum_body_toks items tc ++ X) | None => True end) ->
+  Forall wenum_ok items -> (items = [] -> tc = false) ->
+  one_step_ns n dt (enum_toks key name p items tc ++ [ktok T_LIT_59])
+              (IEnum 0 mods0 key name false false (option_map pn2_out p) (map strip_e items) FinNone).
+Proof. exact enum_definition_is_statement. Qed.
+
+Print Assumptions using_directives_are_unit_elements.
+Print Assumptions using_declarations_are_unit_elements.
+Print Assumptions aliases_are_unit_elements.
+Print Assumptions enum_definitions_are_unit_elements.
 Print Assumptions translation_unit_reads_back_partial.
 Print Assumptions translation_units_concatenate_partial.
 Print Assumptions declaration_statements_are_unit_elements.
